@@ -3,7 +3,11 @@ EXTENDS Deadline, Json
 TShapes == [n : 0..10, digits : BOOLEAN, unit : Units \cup {"", "x", "s", "h", "ms"}, signed : BOOLEAN]
 Clients == {"grpc-cancel", "http-disconnect", "grpcweb-disconnect"}
 ASSUME \A s \in TShapes : ((s.signed => s.n >= 1) /\ ~(s.n = 0 /\ s.unit = "")) => PrintT(<<"SHAPE", ToJson(s)>>)
-ASSUME \A sh \in {"unary", "cstream", "sstream", "bidi"}, pt \in {"running", "blockedRecv", "blockedSend", "returned"}, cl \in Clients :
-         PrintT(<<"SCHED", ToJson([shape |-> sh, point |-> pt, client |-> cl])>>)
+\* "idleAfterSend": the handler has sent a reply and waits on its context (a subscription); lateend: the request body of
+\* a raw HTTP/1.1 client is chunked and its terminating chunk arrives only after the handler has read the message
+ASSUME \A sh \in {"unary", "cstream", "sstream", "bidi"}, pt \in {"running", "blockedRecv", "blockedSend", "returned", "idleAfterSend"},
+          cl \in Clients, le \in BOOLEAN :
+         (le => (cl # "grpc-cancel" /\ sh \in {"unary", "sstream"})) /\ (pt = "idleAfterSend" => sh \in {"sstream", "bidi"})
+           => PrintT(<<"SCHED", ToJson([shape |-> sh, point |-> pt, client |-> cl, lateend |-> le])>>)
 NoPoints == {}
 =============================================================================
